@@ -7,7 +7,7 @@ From Onet Require Export Base.Corr Net.Peers Net.PeersSpec.
 
 (* Which variant of the model the pinned code is compared with.  The integrator
    flips this to [true] when proposed_fixes/C17-F25.diff lands in /repo. *)
-Definition code_fixed_F25 := false.
+Definition code_fixed_F25 := true.
 
 (* Canonical numbering used by the harness: key k (0-based index in the key
    pool) has derived id k+1; 0 is the all-zero uuid; >= 1000 are ids that
